@@ -72,7 +72,7 @@ def check(case):
     u_om = np.zeros(ref.nu)
     for n, m in ref.uvars.items():
         u_om[m['off']:m['off'] + m['size']] = np.asarray(p.get_val(n)).ravel()
-    if not np.all(np.isfinite(u_om)):
+    if not np.all(np.isfinite(u_om)) or (u_om.size and float(np.max(np.abs(u_om))) > 1e12):
         res.discard = 'nonfinite'
         return res
     u_ref, rn = ref.solve(u_om, ref.x0)
@@ -80,6 +80,7 @@ def check(case):
         res.discard = 'reference-newton-failed'
         return res
     dudx, cond = ref.totals(u_ref, ref.x0)
+    ref_scale = ref.totals_scale(u_ref, ref.x0)
     if not np.isfinite(cond) or cond > 1e8:
         res.discard = 'ill-conditioned'
         return res
@@ -117,12 +118,19 @@ def check(case):
     lhs = float(w @ Jv)
     rhs = float(JTw @ v)
     scale = abs(lhs) + abs(rhs) + float(np.linalg.norm(w) * np.linalg.norm(Jv) + np.linalg.norm(JTw) * np.linalg.norm(v))
-    tol = 1e-10 * max(1.0, cond) * scale + 1e-13
+    # plus the round-off floor of the linear solves, which is relative to the largest total derivative of the whole model
+    # (a product that is zero in exact arithmetic is obtained by cancelling terms of that size)
+    big = 1.0 + ref_scale
+    floor = 8 * np.finfo(float).eps * max(1.0, cond) * big * float(np.linalg.norm(w) * np.linalg.norm(v))
+    # (and the absolute tolerance of the iterative linear solvers, 1e-14 on scaled residuals, which output/residual
+    # scaling factors of up to 250/0.01 turn into ~1e-12 on physical values)
+    tol = 1e-10 * max(1.0, cond) * scale + 1e-12 * (1.0 + float(np.linalg.norm(w) * np.linalg.norm(v))) + floor
     if not abs(lhs - rhs) <= tol:
         res.fail(tag(known, 'totals:jvp-vjp-not-adjoint'), f"<w,Jv>={lhs!r} <JTw,v>={rhs!r} tol={tol:.2e} cond={cond:.2e}")
     rt = 1e-9 * max(1.0, cond)
     for name, got, exp in (('jvp', Jv, Jref @ v), ('vjp', JTw, Jref.T @ w)):
-        t = rt * (float(np.max(np.abs(exp))) if exp.size else 0.0) + 1e-11
+        t = rt * (float(np.max(np.abs(exp))) if exp.size else 0.0) + 1e-11 + \
+            8 * np.finfo(float).eps * max(1.0, cond) * big * float(np.linalg.norm(v if name == 'jvp' else w))
         if got.shape != exp.shape or (got.size and float(np.max(np.abs(got - exp))) > t):
             res.fail(tag(known, f"totals:{name}-differs-from-reference"), f"{name}: got {got.tolist()} expected {exp.tolist()}")
 
@@ -232,7 +240,7 @@ def strategy(tier):
 
 def units(tier, seed):
     n = 16 if tier == 'quick' else 32
-    per = 60 if tier == 'quick' else 750
+    per = 60 if tier == 'quick' else 400
     return [{'kind': 'random', 'n': per, 'seed': core.shard_seed(seed, ID, i)} for i in range(n)]
 
 
